@@ -15,7 +15,12 @@ for d in sorted(glob.glob(os.path.join(V, "seeded", "*-*"))):
             continue
         verdict = {1: "caught", 0: "MISSED", 2: "inconclusive"}.get(x["exit"], str(x["exit"]))
         by = ", ".join(sorted(set(x.get("caught_by") or [])))[:90]
-        cells.append("%s quick: %s%s" % (prop, verdict, (" by " + by) if by else ""))
+        extra = ""
+        if x.get("restricted_to"):
+            extra += " [re-run restricted to the obligations `%s` of the quick tier]" % x["restricted_to"].replace("|", "/")
+        if x.get("note"):
+            extra += " (%s)" % x["note"]
+        cells.append("%s quick: %s%s%s" % (prop, verdict, (" by " + by) if by else "", extra))
     what = (meta.get("summary") or "").replace("|", "/").replace("\n", " ")[:170]
     rows.append("| %s | %s | %s | %s |" % (mid, meta["property"], what, "; ".join(cells) or "not run"))
 table = ("| change | targets | what it does | result of the registered check(s) on the changed tree |\n|---|---|---|---|\n" + "\n".join(rows) + "\n")
